@@ -229,7 +229,7 @@ PROPS = {
     "C07": {
         "level": "proof",
         "lean_modules": ["SqlizeModel.Props.C07"],
-        "theorems": ["Sqlize.C07.empty_is_zero", "Sqlize.C07.column_order_irrelevant", "Sqlize.C07.same_tables_same_value", "Sqlize.C07.case_option_irrelevant", "Sqlize.sortStrs_perm"],
+        "theorems": ["Sqlize.C07.empty_is_zero", "Sqlize.C07.column_order_irrelevant", "Sqlize.C07.same_tables_same_value", "Sqlize.C07.case_option_irrelevant", "Sqlize.sortStrs_perm", "Sqlize.C07.value_is_a_function_of_the_schema", "Sqlize.C07.same_schema_same_value_from_scripts", "Sqlize.hash_of_schema", "Sqlize.Table.hashWith_spec", "Sqlize.Index.hashInput_live"],
         "suites": [{"name": "hash", "repeat_processes": 1, "repeat_processes_thorough": 5}, {"name": "script"}],
         "corr_points": None,
         "rule": "hash suite: random schemas (1..4 tables with indexes) x presentations {canonical, one statement per call, alias spelling + keyword "
@@ -241,7 +241,10 @@ PROPS = {
         "trusted_base": COMMON_TB + PAIR_TB + ["MD5 is implemented in Lean (Base/MD5.lean) for the correspondence only; theorems are for an arbitrary digest function"],
         "assumptions": ["md5 collision-freeness only matters for the 'different schema => different value' direction, which is checked per case, not proved"],
         "explanation": "Proved for every digest function: empty = 0, independence of column/index order, of keyword-case option, congruence over "
-                       "tables; tied by exact value correspondence (md5 in Lean) on every presentation and edit.",
+                       "tables; and from scripts (value_is_a_function_of_the_schema): for every script the reference engine accepts (element-safe vocabulary, no inline PRIMARY KEY, MySQL reader model) "
+                       "the value of the loaded model is DB.hashOf of the reference schema - per table, in table order, the columns' names and types, the primary key and the indexes, nothing else - so two scripts "
+                       "describing such schemas have the same value whatever the route (same_schema_same_value_from_scripts). The converse (different schema, different value) is decided per edit; "
+                       "tied by exact value correspondence (md5 in Lean) on every presentation and edit.",
     },
 
     "C08": {
